@@ -94,6 +94,7 @@ type Exec struct {
 	iptr       map[int]Value // interface payloads standing for interior pointers (see makeInterface)
 	specWF     []*Term // well-formedness facts of values loaded inside spec functions (see wfLoaded)
 	deadline   time.Time
+	instrTick  int
 	cpuStart, cpuBudget time.Duration
 	limitTick  int
 }
@@ -839,6 +840,10 @@ func (x *Exec) execFrom(fr *frame, st *State, b *ssa.BasicBlock, start int, edge
 }
 
 func (x *Exec) execInstr(fr *frame, st *State, ins ssa.Instruction) {
+	x.instrTick++
+	if x.instrTick%256 == 0 {
+		x.checkLimits()
+	}
 	c := x.C
 	if ins.Pos().IsValid() {
 		x.curPos = ins.Pos()
